@@ -63,6 +63,12 @@ FIXED = [
     ('namechars', "@@namechars :: '-$'\n\nstart: {'let' @name | @int}* $ ;"),
     ('dot', "start: {!'x' /./}* 'x' $ ;"),
     ('join', "start: ','%{@int}+ ';'.{@name} $ ;"),
+    # closures, joins and gathers whose element (and separator) can match the empty string: the no-progress guard must end them
+    ('nullable-closure', "start: {['a']} 'b' $ ;"),
+    ('nullable-join', "start: /,?/%{['a']} 'b' $ ;"),
+    ('nullable-gather', "start: ([',']).{['a']}+ 'b' $ ;"),
+    ('nullable-ws-join', "start: /\\s*/.{/a*/}+ 'b' $ ;"),
+    ('nullable-rules', "start: sep%{item} 'b' $ ;\n\nsep: [','] ;\n\nitem: {'a'} ;"),
 ]
 
 # a few valid sentences per fixed grammar; texts are mutations of these half of the time
@@ -73,6 +79,7 @@ SEEDS = {
     'kw': ['if a then b c', 'x y'], 'lr': ['(2*1)+3', '1+2*3-4', '((1))', 'a*(b+1)'], 'skipto': ['xx a yy 1', 'a'], 'const': ['5'], 'cut': ['(1) x (2)', 'x'],
     'ws': ['1\n2\n', '1 \n'], 'comments': ['a (* c *) 1 # e\nb', 'a'], 'nows': ['1,2,true', '1'], 'ignorecase': ['SELECT a From b 1', 'x'],
     'namechars': ['let a-b 1 let $x', '1'], 'dot': ['abx', 'x'], 'join': ['1,2,3 a;b', '1'],
+    'nullable-closure': ['a a b', 'b'], 'nullable-join': ['a,a b', 'b'], 'nullable-gather': ['a , a b', 'b'], 'nullable-ws-join': ['aa a b', 'b'], 'nullable-rules': ['a a, a b', 'b'],
 }
 
 ALPHA = st.sampled_from(list('0123456789') * 2 + list('+-._eE') * 2 + list('abtruefalsTFxyz') + [' ', ' ', '\n', '\r', '\r\n', '\t', ',', ':', ';', '(', ')', '*', '#']
